@@ -203,4 +203,16 @@ def implState (sp : Spec) : Nat → TState
   | 0 => register sp.t0 sp.s0
   | k + 1 => (stepTask sp.iv (implState sp k) (sp.t k) (sp.s k)).st
 
+/-- The specification instance of one task of a configuration: registration at `t0` with BOOL
+globals `sv0`, cycle `k` starting at clock `t k` with BOOL globals `sv k`. -/
+def specOf (tk : Task) (t0 : Int) (sv0 : Nat → Bool) (t : Nat → Int) (sv : Nat → Nat → Bool) : Spec :=
+  { iv := tk.interval, t0 := t0, s0 := singleNow tk sv0, t := t,
+    s := fun k => singleNow tk (sv k) }
+
+/-- Scheduler state of the whole configuration before cycle `k`. -/
+def runStates (tasks : List Task) (t0 : Int) (sv0 : Nat → Bool) (t : Nat → Int)
+    (sv : Nat → Nat → Bool) : Nat → List TState
+  | 0 => tasks.map (fun tk => register t0 (singleNow tk sv0))
+  | k + 1 => (collect tasks (runStates tasks t0 sv0 t sv k) (sv k) (t k)).1
+
 end TrustVerif.C06
